@@ -70,6 +70,22 @@ for pid in sorted(seeds):
         if not d.get('valid', True): caught += " (seed not valid: see meta.json)"
         sec9.append("| %s | %s | %s | %s |" % (n, d['breaks'].replace('|', '\\|').replace('\n', ' ')[:400], d['needs_to_manifest'].replace('|', '\\|').replace('\n', ' ')[:300], caught))
 sec9.append("")
+hf = os.path.join(V, 'seeded', 'harmless', 'results.json')
+if os.path.exists(hf):
+    res = json.load(open(hf))
+    sec9.append("### Behaviour-preserving rewrites (false-alarm test)\n")
+    sec9.append("Written by a session that saw only the repository and was asked for ordinary refactorings with identical observable "
+                "behaviour (each passes the existing suite). Every registered check was run against each (`tools/harmless.py`, "
+                "`seeded/harmless/`): a failing check here is a false alarm.\n")
+    sec9.append("| rewrite | files | what | checks passing | false alarms |")
+    sec9.append("|---|---|---|---|---|")
+    for n in sorted(res, key=int):
+        e = res[n]
+        ok = [c for c, r in e['checks'].items() if r['rc'] == 0]
+        bad = [c for c, r in e['checks'].items() if r['rc'] != 0]
+        sec9.append("| H%s | %s | %s | %d/%d | %s |" % (n, ", ".join(e.get('files') or []), (e.get('what') or '').replace('|', '\\|')[:300],
+                                                  len(ok), len(e['checks']), ", ".join(bad) or "none"))
+    sec9.append("")
 extra = os.path.join(V, 'tools', 'design_selftest.md')
 if os.path.exists(extra):
     sec9.append(open(extra).read())
